@@ -54,8 +54,8 @@ def regenerate_gen():
     TRANSLATOR_STATUS["normalize_file_permissions"] = dict(status=st, detail=detail)
     for unit, (st2, det2) in py2coq.regenerate_range_cmp(REPO, COQ).items():
         TRANSLATOR_STATUS["version_range_constraint." + unit] = dict(status=st2, detail=det2)
-    st3, det3 = py2coq.regenerate_range_allows(REPO, COQ)
-    TRANSLATOR_STATUS["version_range.VersionRange.allows"] = dict(status=st3, detail=det3)
+    for unit, (st3, det3) in py2coq.regenerate_range_allows(REPO, COQ).items():
+        TRANSLATOR_STATUS[unit] = dict(status=st3, detail=det3)
     return st
 
 def build_coq(targets=None, timeout=3000):
